@@ -32,19 +32,75 @@ class Partial:
 ABSENT = None
 
 
+class Inode:
+    """A file body.  Directory entries (FS._entries) point to inodes, open handles keep their inode: a rename moves
+    the entry, later writes through a still-open handle land in the renamed file."""
+
+    def __init__(self, content):
+        self.content = content
+
+
+class _Files(dict):
+    """path -> content view over the inode table (reads return the content, writes create/replace an inode)."""
+
+    def __init__(self, fs):
+        super().__init__()
+        self.fs = fs
+
+
 class FS:
     def __init__(self):
-        self.files = {}            # path string -> Doc | Partial
+        self._entries = {}         # path string -> Inode
         self.dirs = set()
-        self.trace = []            # (op, path, extra) ; after each effect a snapshot of `files` is kept
+        self.trace = []            # (op, path, extra) ; after each effect a snapshot path -> content is kept
         self.snapshots = []
+
+    # dictionary-like access to contents (path -> Doc | Partial)
+    class _View:
+        def __init__(self, fs):
+            self.fs = fs
+
+        def __contains__(self, p):
+            return p in self.fs._entries
+
+        def __getitem__(self, p):
+            return self.fs._entries[p].content
+
+        def __setitem__(self, p, content):
+            self.fs._entries[p] = Inode(content)
+
+        def get(self, p, default=None):
+            e = self.fs._entries.get(p)
+            return default if e is None else e.content
+
+        def pop(self, p):
+            return self.fs._entries.pop(p).content
+
+        def __delitem__(self, p):
+            del self.fs._entries[p]
+
+        def __iter__(self):
+            return iter(list(self.fs._entries))
+
+        def clear(self):
+            self.fs._entries.clear()
+
+        def keys(self):
+            return list(self.fs._entries)
+
+    @property
+    def files(self):
+        return FS._View(self)
 
     def effect(self, op, path, extra=None):
         self.trace.append((op, path, extra))
-        self.snapshots.append(dict(self.files))
+        self.snapshots.append({p: i.content for p, i in self._entries.items()})
 
     def content(self, path):
         return self.files.get(str(path), ABSENT)
+
+    def rename(self, src, dst):
+        self._entries[dst] = self._entries.pop(src)
 
 
 class Handle:
@@ -52,23 +108,28 @@ class Handle:
         self.fs, self.path, self.mode = fs, path, mode
         self.closed = False
         if "w" in mode:
-            fs.files[path] = Partial([])
+            if path in fs._entries:
+                fs._entries[path].content = Partial([])       # truncation of the existing file body
+            else:
+                fs._entries[path] = Inode(Partial([]))
+            self.inode = fs._entries[path]
             fs.effect("open-truncate", path)
         elif "r" in mode:
-            if path not in fs.files:
+            if path not in fs._entries:
                 raise FileNotFoundError(path)
+            self.inode = fs._entries[path]
             fs.trace.append(("open-read", path, None))
         else:
             raise NotImplementedError(mode)
 
     def write(self, piece):
-        cur = self.fs.files[self.path]
-        self.fs.files[self.path] = Partial(cur.pieces + [piece])
+        cur = self.inode.content
+        self.inode.content = Partial(cur.pieces + [piece])
         self.fs.effect("write", self.path)
         return 1
 
     def read(self):
-        return self.fs.files[self.path]
+        return self.inode.content
 
     def flush(self):
         pass
@@ -78,12 +139,11 @@ class Handle:
             return
         self.closed = True
         if "w" in self.mode:
-            cur = self.fs.files[self.path]
-            pieces = cur.pieces
+            pieces = self.inode.content.pieces
             if len(pieces) == 1 and isinstance(pieces[0], Doc):
-                self.fs.files[self.path] = pieces[0]
+                self.inode.content = pieces[0]
             else:
-                self.fs.files[self.path] = Doc(("concat", tuple(pieces)), "text")
+                self.inode.content = Doc(("concat", tuple(pieces)), "text")
             self.fs.effect("close", self.path)
 
     def __enter__(self):
@@ -161,7 +221,7 @@ class SpecPath:
 
     def replace(self, target):
         t = str(target)
-        self.fs.files[t] = self.fs.files.pop(self.p)
+        self.fs.rename(self.p, t)
         self.fs.effect("replace", t, self.p)
         return SpecPath(self.fs, t)
 
@@ -187,7 +247,7 @@ class SpecOS:
 
     def replace(self, src, dst):
         s, d = str(src), str(dst)
-        self.fs.files[d] = self.fs.files.pop(s)
+        self.fs.rename(s, d)
         self.fs.effect("replace", d, s)
 
     rename = replace
@@ -216,18 +276,32 @@ class SymDict(dict):
     """The mapping stored in an existing results file: arbitrary content.  Membership of the one name that a
     save asks about is decided by an oracle (symbolic: a fork); writes are recorded."""
 
-    def __init__(self, oracle, label="D"):
+    def __init__(self, oracle, label="D", other_keys=()):
         super().__init__()
         self.oracle = oracle
         self.label = label
         self.added = {}
         self.asked = []
+        # names of earlier runs that are certainly in the mapping: all DIFFERENT from the name being saved
+        # (chosen adversarially: same stem, same prefix, different case, trailing blank, ...)
+        self.other_keys = list(other_keys)
+        self.name = None
 
     def keys(self):
         return self
 
+    def __iter__(self):
+        # iterating the stored names: the certain other names, the name itself iff the oracle says so, then additions
+        ks = list(self.other_keys)
+        if self.name is not None and self.name not in self.added and bool(self.oracle(self.name)):
+            ks.append(self.name)
+        return iter(ks + [k for k in self.added if k not in ks])
+
+    def __len__(self):
+        return len(list(iter(self)))
+
     def __contains__(self, k):
-        if k in self.added:
+        if k in self.added or k in self.other_keys:
             return True
         self.asked.append(k)
         return bool(self.oracle(k))
@@ -261,7 +335,13 @@ class SymDict(dict):
         return self
 
     def items(self):
-        return self.added.items()
+        return [(k, self.added.get(k, ("earlier-entry", k))) for k in self]
+
+    def values(self):
+        return [v for _, v in self.items()]
+
+    def get(self, k, default=None):
+        return self.added.get(k, default)
 
 
 class SpecJSON:
